@@ -66,6 +66,32 @@ type c14Stream struct {
 	network.Stream
 	id int
 }
+
+// the swarm as the registry may ask it about: which transport connections (admitted or not) are
+// open right now.  A connection of a case is open from its first mention (from the start of the
+// case when that mention is its closure: it was never admitted) until it is closed.
+type c14Net struct {
+	network.Network
+	open map[*c14Conn]bool
+}
+
+func (n *c14Net) Connectedness(p core.PeerID) network.Connectedness {
+	for c := range n.open {
+		if c.pid == p {
+			return network.Connected
+		}
+	}
+	return network.NotConnected
+}
+func (n *c14Net) ConnsToPeer(p core.PeerID) []network.Conn {
+	var out []network.Conn
+	for c := range n.open {
+		if c.pid == p {
+			out = append(out, c)
+		}
+	}
+	return out
+}
 type c14Disc struct{ got []p2p.Peer }
 
 func (d *c14Disc) disconnected(p p2p.Peer) { d.got = append(d.got, p) }
@@ -102,7 +128,7 @@ func c14NotifyOrder() map[string]any {
 	p := &p2p.Peer{EthAddress: c14Addr(1), Type: p2p.PeerTypeProvider}
 	c1, c2 := &c14Conn{pid: pid, id: 1}, &c14Conn{pid: pid, id: 2}
 	r.addPeer(c1, p)
-	go r.Disconnected(nil, c1)
+	go r.Disconnected(&c14Net{open: map[*c14Conn]bool{}}, c1)
 	select {
 	case <-d.hit:
 	case <-time.After(2 * time.Second):
@@ -206,7 +232,7 @@ func c14HeaderWindow() map[string]any {
 		fh.handler(st)
 	}()
 	time.Sleep(10 * time.Millisecond) // the wrapper has looked the peer up and waits for the header
-	svc.peers.Disconnected(nil, admitted)
+	svc.peers.Disconnected(&c14Net{open: map[*c14Conn]bool{}}, admitted)
 	time.Sleep(5 * time.Millisecond)
 	close(st.gate) // now the header arrives
 	select {
@@ -249,8 +275,8 @@ func c14NotifyAtShutdown() map[string]any {
 	r.addPeer(c1, &p2p.Peer{EthAddress: c14Addr(1), Type: p2p.PeerTypeProvider})
 	r.addPeer(c2, &p2p.Peer{EthAddress: c14Addr(2), Type: p2p.PeerTypeBidder})
 	cancel()
-	r.Disconnected(nil, c1)
-	r.Disconnected(nil, c2)
+	r.Disconnected(&c14Net{open: map[*c14Conn]bool{}}, c1)
+	r.Disconnected(&c14Net{open: map[*c14Conn]bool{}}, c2)
 	time.Sleep(5 * time.Millisecond)
 	res["notifications_for_two_removed_peers"] = int(d.n.Load())
 	return res
@@ -302,7 +328,7 @@ func c14StreamDuringHandshake() map[string]any {
 	case <-time.After(2 * time.Second):
 		return res
 	}
-	svc.peers.Disconnected(nil, conn)
+	svc.peers.Disconnected(&c14Net{open: map[*c14Conn]bool{}}, conn)
 	select {
 	case <-cancelled:
 		set("handler_context_cancelled_at_disconnect", true)
@@ -353,6 +379,17 @@ func c14Run(in c14In) []c14Snap {
 		streams[s] = x
 		return x
 	}
+	net := &c14Net{open: map[*c14Conn]bool{}}
+	seen := map[*c14Conn]bool{}
+	for _, op := range in.Ops {
+		if op.T == "addPeer" || op.T == "disconnected" {
+			c := connOf(op.C, op.Pid)
+			if !seen[c] && op.T == "disconnected" {
+				net.open[c] = true
+			}
+			seen[c] = true
+		}
+	}
 	var res []c14Snap
 	for _, op := range in.Ops {
 		snap := c14Snap{Out: "none", ByID: map[string]string{}, ByAddr: map[string]string{}, Notified: []c14Peer{}, Cancelled: []int{}}
@@ -364,10 +401,12 @@ func c14Run(in c14In) []c14Snap {
 			}()
 			switch op.T {
 			case "addPeer":
+				net.open[connOf(op.C, op.Pid)] = true
 				ex := r.addPeer(connOf(op.C, op.Pid), &p2p.Peer{EthAddress: c14Addr(op.Peer.Addr), Type: p2p.PeerType(op.Peer.Role)})
 				snap.Out = fmt.Sprintf("exists:%v", ex)
 			case "disconnected":
-				r.Disconnected(nil, connOf(op.C, op.Pid))
+				delete(net.open, connOf(op.C, op.Pid)) // the swarm has dropped it by the time it tells the registry
+				r.Disconnected(net, connOf(op.C, op.Pid))
 			case "lookup":
 				p, ok := r.getPeer(pidOf(op.Pid))
 				if !ok {
